@@ -7,7 +7,10 @@ the parser's regexes and counters, (b) all token sequences up to a length bound 
 canary (profile hook + tripwire `self`), accepted inputs are built and instantiated, and every statement of the
 reference split must contribute exactly one equation or verbatim block.
 """
+import ast
+import builtins
 import itertools
+import keyword
 import re
 import sys
 import warnings
@@ -26,10 +29,13 @@ TECHNIQUE = 'exhaustive enumeration of all strings / token sequences up to a len
 RULE = ('(a) all strings of length <= 4 (quick) / <= 5 (thorough) over 25 characters; (b) all sequences of <= 3 (quick) / <= 4 (thorough) tokens over 32 tokens; '
         '(c) all single mutations (quick) / single and double mutations (thorough) of 23 seed scripts (token deletion, duplication, adjacent swap, bracket insertion); '
         '(d) all sequences of <= 6 (quick) / <= 7 (thorough) tokens over the 9-token alphabet {X, exp, =, (, ), 1, space, [-1], status} (names in several roles). '
+        '(e) every name a model instance, its class or Python itself already uses (dir(instance), instance __dict__ keys with and without the leading underscore, keywords, builtins) '
+        'in 7 roles (right-hand side, left-hand side, parameter, error, lagged, both sides, fenced); (f) fenced and inline verbatim statements of every Python statement kind over the names of '
+        "_evaluate()'s own arguments, each with and without trailing blanks; "
         'non-trivial = input that is not rejected by the very first equation regex test, i.e. reaches term parsing, or is accepted; distinct by input text')
 ASSUMPTIONS = [
     'reference statement split: physical lines joined while parentheses or a code fence are open; blank and comment-only lines dropped',
-    'verbatim blocks containing `from m import *` are outside the alphabets',
+    'an accepted equation whose generated code is a bare expression without any assignment or call is counted as a discarded statement; inputs with quote characters are not judged on this (text inside a Python string literal is not the parser\'s to translate)',
 ]
 
 ALPHA = ['X', 'a', '1', '_', ' ', '\n', '=', '+', '-', '*', '/', '.', ',', '(', ')', '[', ']', '{', '}', '<', '>', '`', '#', "'", 'é']
@@ -135,6 +141,7 @@ def judge(s, sink):
     del _EXEC_HITS[:]
     printed = sink.n
     g_before = set(vars(fsic.parser))
+    m_before = _module_state()
     w_before = list(warnings.filters)
     e_before = np.geterr()
     fsic.parser.__dict__['self'] = Tripwire()
@@ -176,6 +183,9 @@ def judge(s, sink):
         np.seterr(**e_before)
     if set(vars(fsic.parser)) - g_before:
         v.append(('side-effect:globals', [], sorted(set(vars(fsic.parser)) - g_before), 'parsing left names in the parser module'))
+    if _module_state() != m_before:
+        v.append(('side-effect:module-state', m_before, _module_state(), 'parsing changed a module-level table of the parser'))
+        _restore_module_state()
     if symbols is None:
         return label, v
     if not isinstance(symbols, list):
@@ -215,6 +225,17 @@ def judge(s, sink):
                       'a statement of the script does not contribute exactly one equation or verbatim block to the built model'))
     except Exception as e:
         v.append(('build-definition-failed:%s' % type(e).__name__, 'builds', repr(e)[:200], 'build_model_definition failed on an accepted script'))
+    # an equation is an assignment to its own left-hand side: anything else means the statement was not translated but discarded
+    for x in symbols:
+        if x.type.name == 'ENDOGENOUS' and x.code is not None and "'" not in s and '"' not in s:
+            why = _no_effect(x)
+            if why:
+                v.append(('statement-discarded:' + why, 'an assignment (code with an effect) for ' + x.name, x.code[:120],
+                          'an accepted equation is not translated to an assignment of its left-hand side'))
+                break
+    if _module_state() != m_before:
+        v.append(('side-effect:module-state:build', m_before, _module_state(), 'building changed a module-level table of the parser'))
+        _restore_module_state()
     if sink.n != printed:
         v.append(('side-effect:stdout:build', 'nothing printed', sink.n - printed, 'building wrote to stdout'))
     # statement accounting
@@ -237,6 +258,80 @@ def judge(s, sink):
         if sorted(set(whole), key=repr) != sorted(set(alone), key=repr):
             v.append(('accounting-mismatch', sorted(set(alone), key=repr)[:4], sorted(set(whole), key=repr)[:4], 'equations of the script differ from those of its statements'))
     return label, v
+
+
+_MUTABLE_GLOBALS = {k: v for k, v in vars(fsic.parser).items() if isinstance(v, (dict, list, set)) and not k.startswith('__')}
+_MUTABLE_ORIG = {k: (dict(v) if isinstance(v, dict) else type(v)(v)) for k, v in _MUTABLE_GLOBALS.items()}
+
+
+def _module_state():
+    """Contents of every module-level mutable table of fsic.parser (e.g. the function-name replacement table)."""
+    return {k: repr(sorted(v.items()) if isinstance(v, dict) else sorted(v, key=repr)) for k, v in _MUTABLE_GLOBALS.items()}
+
+
+def _restore_module_state():
+    for k, v in _MUTABLE_GLOBALS.items():
+        v.clear()
+        if isinstance(v, dict):
+            v.update(_MUTABLE_ORIG[k])
+        elif isinstance(v, list):
+            v.extend(_MUTABLE_ORIG[k])
+        else:
+            v.update(_MUTABLE_ORIG[k])
+
+
+def _no_effect(x):
+    """The generated code of an accepted equation is a bare expression that assigns nothing and calls nothing: running it does
+    nothing, i.e. the statement was discarded. (Inputs with quote characters are not judged: inside a Python string literal
+    the text is not the parser's to translate.)"""
+    try:
+        body = ast.parse(x.code).body
+    except SyntaxError:
+        return None  # judged by the build step
+    if len(body) != 1 or not isinstance(body[0], ast.Expr):
+        return None
+    for sub in ast.walk(body[0]):
+        if isinstance(sub, (ast.Call, ast.Yield, ast.YieldFrom, ast.Await, ast.NamedExpr)):
+            return None
+    return 'no-effect'
+
+
+def _reserved_universe():
+    Model = fsic.build_model(fsic.parse_model('Y = X'))
+    m = Model(range(3))
+    names = set(dir(m)) | set(m.__dict__) | set(keyword.kwlist) | set(dir(builtins)) | {'t', 'self', 'np', 'kwargs', 'errors', 'iteration', 'catch_first_error'}
+    names |= {n[1:] for n in names if n.startswith('_') and len(n) > 1}
+    names |= {n.lower() for n in names} | {n.upper() for n in names if n.islower() and len(n) < 12}
+    return sorted(n for n in names if re.fullmatch(r'[A-Za-z_][A-Za-z0-9_]*', n))
+
+
+NAME_ROLES = ['X = %s', '%s = X', 'X = {%s}', 'X = <%s>', 'X = %s[-1]', '%s = %s[-1] + X', '```\n%s = 0\n```\nX = 1']
+ARGS = ['t', 'self', 'kwargs', 'errors', 'iteration', 'catch_first_error', 'X', 'np']
+STATEMENT_KINDS = [
+    'global %s', 'nonlocal %s', 'del %s', 'return', 'return %s', 'yield', 'yield %s', 'await %s', 'import os', 'import os as %s', 'from os import *', 'from os import path as %s',
+    'from __future__ import annotations', 'pass', 'break', 'continue', 'raise', 'raise %s', 'assert %s', '%s: int', '%s: int = 0', '%s = 0', '%s += 1', '(%s := 1)', '%s = lambda: 0',
+    'def %s():\n    pass', 'class %s:\n    pass', 'with %s:\n    pass', 'try:\n    pass\nexcept %s:\n    pass', 'for %s in []:\n    pass', 'while False:\n    pass',
+    'async def %s():\n    pass', 'if %s:\n    pass', 'if %s:\n    pass\nelse:\n    pass', '*%s, = []', '%s, _ = 0, 0', 'print(%s)', '%s', "'''\n%s\n'''", 'self._X[t] = %s', 'self._X[t] = 1',
+    'global %s\nself._X[t] = 1', 'self._X[t] = 1\nglobal %s', 'X = 1', 'X[t] = 1',
+]
+TRAILERS = ['', ' ', '  ', '\t', ' # note', '\n', ' \n ']
+
+
+def verbatim_inputs():
+    seen = set()
+    for kind in STATEMENT_KINDS:
+        for a in (ARGS if '%s' in kind else ['']):
+            body = kind.replace('%s', a)
+            forms = ['```\n' + body + '\n```']
+            if '\n' not in body:
+                forms.append('`' + body + '`')
+            for f in forms:
+                for tr in TRAILERS:
+                    for rest in ('', '\nX = 1'):
+                        s = f + tr + rest
+                        if s not in seen:
+                            seen.add(s)
+                            yield s
 
 
 # --------------------------------------------------------------------------- enumeration
@@ -291,6 +386,11 @@ def blocks(tier, seed):
     for a in SMALL_TOKENS:
         for b in SMALL_TOKENS:
             out.append({'kind': 'small-tokens', 'first': a + b, 'max': 6 if tier == 'quick' else 7})
+    for r in range(len(NAME_ROLES)):
+        for part in range(4):
+            out.append({'kind': 'names', 'role': r, 'part': part, 'parts': 4})
+    for part in range(8):
+        out.append({'kind': 'verbatim-kinds', 'part': part, 'parts': 8})
     for i in range(len(SEEDS)):
         if tier == 'quick':
             out.append({'kind': 'mutations', 'seed': i, 'double': False, 'part': 0, 'parts': 1})
@@ -351,6 +451,15 @@ def run_block(block, tier, seed):
                         yield block['first'] + ''.join(tail)
             run_inputs(gen(), acc, sink, 'small-tokens')
             acc.sample({'kind': 'small-tokens', 's': block['first'] + '=exp(X)'}, limit=1)
+        elif block['kind'] == 'names':
+            role = NAME_ROLES[block['role']]
+            uni = _reserved_universe()
+            run_inputs((role.replace('%s', n) for i, n in enumerate(uni) if i % block['parts'] == block['part']), acc, sink, 'names')
+            acc.n('names-in-universe-x-role', sum(1 for i in range(len(uni)) if i % block['parts'] == block['part']))
+            acc.sample({'kind': 'names', 's': role.replace('%s', 'check')}, limit=1)
+        elif block['kind'] == 'verbatim-kinds':
+            run_inputs((s for i, s in enumerate(verbatim_inputs()) if i % block['parts'] == block['part']), acc, sink, 'verbatim-kinds')
+            acc.sample({'kind': 'verbatim-kinds', 's': '```\nglobal t\n```'}, limit=1)
         elif block['kind'] == 'tokens':
             def gen():
                 for L in range(0, block['max']):
